@@ -18,6 +18,7 @@ type Env struct {
 	events []Event
 	inOld  bool
 	depth  int
+	inQuant bool
 }
 
 var untypedInt = types.Typ[types.UntypedInt]
@@ -185,7 +186,9 @@ func (e *Env) eval(ex *SExpr) Val {
 		}
 		e.x.D.n++
 		name := fmt.Sprintf("q_%s_%d", sanitize(ex.Var), e.x.D.n)
-		body := e.sub(map[string]Val{ex.Var: {Typ: t, L: []string{name}}}).evalBool(ex.Args[0])
+		qe := e.sub(map[string]Val{ex.Var: {Typ: t, L: []string{name}}})
+		qe.inQuant = true
+		body := qe.evalBool(ex.Args[0])
 		rng := "true"
 		if lo, hi, ok := intRange(t); ok {
 			rng = sAnd("(<= "+lo+" "+name+")", "(<= "+name+" "+hi+")")
@@ -243,6 +246,9 @@ func (e *Env) loadLocSpec(l *Loc) Val {
 	v := Val{Typ: l.Typ, L: make([]string, len(ls))}
 	for i, lf := range ls {
 		v.L[i] = "(select " + e.heapTerm(l.Path+lf.Suffix, lf.Sort) + " " + l.Base + ")"
+	}
+	if e.s != nil && !e.inQuant {
+		e.x.assumeRanges(e.s, v)
 	}
 	return v
 }
@@ -622,6 +628,23 @@ func (e *Env) evalCall(ex *SExpr) Val {
 				r.L = append(r.L, "(select "+e.heapTerm(fmt.Sprintf("env:%s.%d%s", fnName(f), i, lf.Suffix), lf.Sort)+" "+a.L[1]+")")
 			}
 			return r
+		case "apply":
+			// apply(f, "spec name of a pure field contract", args...): the value the pure function
+			// value f returns for these arguments (same uninterpreted function the executor uses).
+			f := e.eval(args[0])
+			spec, ok := e.x.P.specs.Funcs[e.strArg(args[1])]
+			if !ok || !spec.Pure {
+				specFail("apply: %s is not a pure contract", e.strArg(args[1]))
+			}
+			sig, ok := f.Typ.Underlying().(*types.Signature)
+			if !ok {
+				specFail("apply: not a function value")
+			}
+			var av []Val
+			for _, a := range args[2:] {
+				av = append(av, e.eval(a))
+			}
+			return e.x.pureResult(e.s, spec, &f, nil, sig, av)
 		case "held":
 			// held(x.mu): the lock is held at this point of the path (Go-side fact)
 			lk := e.lockKey(args[0])
@@ -695,6 +718,9 @@ func (e *Env) evalCall(ex *SExpr) Val {
 			}
 			n := e.sub(vars)
 			n.depth = e.depth + 1
+			if d.Opaque {
+				return e.evalOpaque(d, vars, n)
+			}
 			return n.eval(d.Body)
 		}
 	}
@@ -749,4 +775,50 @@ func (x *Exec) typeSpecOf(t types.Type) *TypeSpec {
 		t = p.Elem()
 	}
 	return x.P.specs.Types[typeKey(t)]
+}
+
+// evalOpaque: an opaque spec function is an uninterpreted function; its definition is assumed
+// (for the ground arguments at hand) only in functions that `reveal` it.
+func (e *Env) evalOpaque(d *Define, vars map[string]Val, n *Env) Val {
+	rt, err := e.x.P.lookupType(d.RType)
+	if err != nil {
+		specFail("opaque %s: %v", d.Name, err)
+	}
+	var argTerms, argSorts []string
+	for i, p := range d.Params {
+		pt, err := e.x.P.lookupType(d.PTypes[i])
+		if err != nil {
+			specFail("opaque %s: %v", d.Name, err)
+		}
+		for j, lf := range leavesOf(pt) {
+			argTerms = append(argTerms, vars[p].L[j])
+			argSorts = append(argSorts, lf.Sort)
+		}
+	}
+	ls := leavesOf(rt)
+	if len(ls) != 1 {
+		specFail("opaque %s: scalar result expected", d.Name)
+	}
+	fname := "opaque." + sanitize(d.Name)
+	e.x.D.declareFun(fname, "("+strings.Join(argSorts, " ")+") "+ls[0].Sort)
+	term := "(" + fname + " " + strings.Join(argTerms, " ") + ")"
+	res := Val{Typ: rt, L: []string{term}}
+	revealed := false
+	for _, r := range e.x.spec.Reveal {
+		if r == d.Name {
+			revealed = true
+		}
+	}
+	if revealed && !e.inQuant && e.s != nil {
+		body := n.eval(d.Body)
+		key := "reveal:" + term
+		if e.s.ranged == nil {
+			e.s.ranged = map[string]bool{}
+		}
+		if !e.s.ranged[key] {
+			e.s.ranged[key] = true
+			e.s.pc = append(e.s.pc, sEq(term, body.L[0]))
+		}
+	}
+	return res
 }
